@@ -66,6 +66,8 @@ type Frame struct {
 }
 
 type Exec struct {
+	tagTypes   map[string]types.Type
+	implIfaces map[string]types.Type
 	prog           *Program
 	tb             *TB
 	fn             *ssa.Function
@@ -143,7 +145,36 @@ func (x *Exec) typeTag(t types.Type) *Term {
 	}
 	v := int64(len(x.typeTags) + 1)
 	x.typeTags[s] = v
+	if x.tagTypes == nil {
+		x.tagTypes = map[string]types.Type{}
+	}
+	x.tagTypes[s] = t
 	return x.tb.Intc(v)
+}
+
+// implFacts: Go's typing facts tying dynamic type tags to interface satisfaction: for every interface asked about
+// with implements(...) / a type switch and every concrete type that has a tag, implements.I(tag(T)) is known.
+func (x *Exec) implFacts() []*Term {
+	var out []*Term
+	for _, it := range x.implIfaces {
+		iface, ok := it.Underlying().(*types.Interface)
+		if !ok {
+			continue
+		}
+		f := x.tb.DeclareFun("implements."+sanitize(shortType(it)), []Sort{SInt}, SBool)
+		for s, t := range x.tagTypes {
+			if _, isI := t.Underlying().(*types.Interface); isI {
+				continue
+			}
+			app := x.tb.App(f, x.tb.Intc(x.typeTags[s]))
+			if types.Implements(t, iface) {
+				out = append(out, app)
+			} else {
+				out = append(out, x.tb.Not(app))
+			}
+		}
+	}
+	return out
 }
 
 func (x *Exec) strConst(s string) *Term {
@@ -378,6 +409,7 @@ func (x *Exec) symbolic(st *State, t types.Type, name string, pre bool, depth in
 func (x *Exec) addObl(st *State, name, kind string, goal *Term, pos token.Pos, labels []string) *Obligation {
 	o := &Obligation{Name: name, Kind: kind, Func: x.key, Labels: labels, Goal: goal, x: x, Inputs: x.inputs}
 	o.Asserts = append([]*Term(nil), st.pc...)
+	o.Asserts = append(o.Asserts, x.implFacts()...)
 	if pos.IsValid() {
 		p := x.prog.SSA.Fset.Position(pos)
 		o.Pos = fmt.Sprintf("%s:%d", strings.TrimPrefix(p.Filename, x.prog.RepoDir+"/"), p.Line)
@@ -1793,7 +1825,9 @@ func (x *Exec) payloadFor(st *State, iv *IfaceV, t types.Type) SVal {
 		iv.pmemo = map[string]*payloadMemo{}
 	}
 	if p, ok := iv.payloads[key]; ok {
-		iv.pmemo[key].mergeInto(st)
+		if m := iv.pmemo[key]; m != nil {
+			m.mergeInto(st)
+		}
 		return p
 	}
 	tmp := &State{mem: map[*Object]*ObjState{}, ghost: map[string]SVal{}, cuts: map[string]bool{}}
@@ -1852,6 +1886,12 @@ func (x *Exec) typeAssert(fr *Frame, st *State, v *ssa.TypeAssert, k func(*State
 		} else {
 			okT = x.implementsUF(iv, v.AssertedType)
 		}
+		if iv.payloads == nil {
+			iv.payloads = map[string]SVal{}
+		}
+		if iv.pmemo == nil {
+			iv.pmemo = map[string]*payloadMemo{}
+		}
 		res := &IfaceV{Dyn: iv.Dyn, Val: iv.Val, Tag: iv.Tag, Id: iv.Id, Static: v.AssertedType, payloads: iv.payloads, Name: iv.Name, pmemo: iv.pmemo}
 		if v.CommaOk {
 			k(st, &TupleV{Vals: []SVal{res, okT}})
@@ -1891,6 +1931,10 @@ func (x *Exec) typeAssert(fr *Frame, st *State, v *ssa.TypeAssert, k func(*State
 }
 
 func (x *Exec) implementsUF(iv *IfaceV, t types.Type) *Term {
+	if x.implIfaces == nil {
+		x.implIfaces = map[string]types.Type{}
+	}
+	x.implIfaces[types.TypeString(t, nil)] = t
 	f := x.tb.DeclareFun("implements."+sanitize(shortType(t)), []Sort{SInt}, SBool)
 	return x.tb.And(x.tb.Not(x.tb.Eq(iv.Tag, x.tb.Intc(0))), x.tb.App(f, iv.Tag))
 }
